@@ -12,7 +12,7 @@ from ..common import sig_key
 from ..probes import PROBES
 
 LEVEL = "exploration"
-RULE = "Nested differentiation expressions: depth 2 and 3 enumerate exhaustively (operator per level from {grad, deriv, elementwise_grad, jacobian, make_vjp+1, make_jvp+1}) x (subset of enclosing variables each inner body mentions) x 3 templates (inner result scaled / inside sin / used twice) with the inner evaluation point depending on enclosing variables; depth 4 and vector-valued inner variables (elementwise bodies, sum-reduced) are sampled. Reference: independent symbolic differentiator. Non-trivial iff the symbolic reference is finite and non-zero and the inner body mentions its own variable non-linearly. distinct = distinct (depth, operator sequence, mention masks, template, vector flag)."
+RULE = "Nested differentiation expressions: depth 2 and 3 enumerate exhaustively (operator per level from {grad, deriv, elementwise_grad, jacobian, make_vjp+1, make_jvp+1}) x (subset of enclosing variables each inner body mentions) x 3 templates (inner result scaled / inside sin / used twice) with the inner evaluation point depending on enclosing variables; depth 4 and vector-valued inner variables (elementwise bodies, sum-reduced) are sampled; depth 2 (exhaustive) and depth 3 (sampled) additionally with every level evaluated in a worker thread started and joined inside the enclosing traced function. Reference: independent symbolic differentiator. Non-trivial iff the symbolic reference is finite and non-zero and the inner body mentions its own variable non-linearly. distinct = distinct (depth, operator sequence, mention masks, template, vector flag)."
 ASSUMPTIONS = ["expression grammar is the O-sym op set (+,-,*,/,sin,cos,exp,tanh,pow); random sub-expressions are drawn per case", "reference evaluated in float64; tolerance 1e-9 relative"]
 EXHAUSTIVE = {"C08": "depth 2 and depth 3: all 6^depth operator assignments x all mention subsets x 3 templates"}
 
@@ -41,6 +41,33 @@ def ag_ops():
         "vec:grad_sum": lambda f, z: grad(lambda t: anp.sum(f(t)))(z),
     }
     return ops
+
+
+def threaded_ops(ops):
+    """The same operators, each evaluated in a worker thread that is started (and joined) at the point of
+    the call - i.e. inside the enclosing traced function when the operator is an inner level."""
+    import threading
+
+    def wrap(fn):
+        def run(f, a):
+            box = {}
+
+            def target():
+                try:
+                    box["r"] = fn(f, a)
+                except BaseException as e:  # re-raised in the caller
+                    box["e"] = e
+
+            t = threading.Thread(target=target)
+            t.start()
+            t.join()
+            if "e" in box:
+                raise box["e"]
+            return box["r"]
+
+        return run
+
+    return {k: wrap(v) for k, v in ops.items()}
 
 
 def rand_expr(rng, vars_, depth=2):
@@ -131,6 +158,13 @@ def enumerate_specs(tier, seed):
         for ops in itertools.product(OPNAMES, repeat=d):
             for t in range(3):
                 specs.append({"depth": d, "ops": list(ops), "masks": [0] + [(1 << k) - 1 for k in range(1, d)], "template": t, "indep": True})
+    # every level evaluated in its own worker thread started inside the enclosing traced function
+    for ops in itertools.product(OPNAMES, repeat=2):
+        for m1 in range(2):
+            for t in range(3):
+                specs.append({"depth": 2, "ops": list(ops), "masks": [0, m1], "template": t, "threaded": True})
+    for _ in range(300 if tier == "quick" else 3000):
+        specs.append({"depth": 3, "ops": [str(o) for o in rng.choice(OPNAMES, size=3)], "masks": [0, int(rng.integers(0, 2)), int(rng.integers(0, 4))], "template": int(rng.integers(0, 3)), "threaded": True})
     reps = 1 if tier == "quick" else 3
     out = []
     for r in range(reps):
@@ -147,6 +181,10 @@ def run_spec(res, spec, ops, anp):
     point = round(float(rng.uniform(0.3, 1.2)) * float(rng.choice([-1, 1])), 4)
     top = ("D", spec["ops"][0], "x0", body, S.C(point))
     sig = {"engine": "nesting", "depth": spec["depth"], "ops": spec["ops"], "masks": spec["masks"], "template": spec["template"], "vec": [spec.get("vec_level"), spec.get("vecop")], "indep": bool(spec.get("indep"))}
+    if spec.get("threaded"):
+        sig["threaded"] = True
+        ops = threaded_ops(ops)
+        res["counters"]["threaded_nestings"] = res["counters"].get("threaded_nestings", 0) + 1
     case = {"spec": spec}
     res["evaluations"] += 1
     S.reset_memo()
